@@ -178,8 +178,18 @@ def resolve (s : Schema) : Nat → String → Option TypeDecl
       | .alias (.named m) => resolve s f m
       | _ => some td
 
-/-- the descriptor registered for one TYPE declaration -/
-def typeOf (s : Schema) (td : TypeDecl) : DType :=
+/-- the element type of a named aggregate is (another name for) a SELECT type -/
+def elemIsSelect (s : Schema) : TRef → Bool
+  | .named m => match resolve s (s.types.length) m with
+    | some { body := .select _, .. } => true
+    | _ => false
+  | _ => false
+
+/-- the descriptor registered for one TYPE declaration.  `mode` = where exp2cxx creates enumeration/select
+    descriptors (`Generated.descCreation`): when that is the select's own init function, the
+    `ReferentType( t_<sel> )` call of a named aggregate of that select runs first and stores a null pointer
+    (selects are initialised after all other types). -/
+def typeOfM (mode : DescCreation) (s : Schema) (td : TypeDecl) : DType :=
   match td.body with
   | .enum items => { name := td.name, ft := .enumeration, items := some items }
   | .select ms => { name := td.name, ft := .select, members := some (ms.map refOf) }
@@ -188,7 +198,7 @@ def typeOf (s : Schema) (td : TypeDecl) : DType :=
   | .alias (.aggr k bnds u o el) =>
     { name := td.name, ft := aggFT k,
       aggr := some (k, bnds.map (·.1), bnds.map (fun b => upperVal b.2), u, o && k == .array),
-      ref := refOf el }
+      ref := if mode == .ownInit && elemIsSelect s el then .null else refOf el }
   | .alias (.named m) =>
     -- a renamed type: REFERENCE_TYPE pointing at the type named; a renamed select/enumeration is a
     -- Select/EnumTypeDescriptor of its own which shares the original's members / creator
@@ -196,6 +206,8 @@ def typeOf (s : Schema) (td : TypeDecl) : DType :=
     | some { body := .enum items, .. } => { name := td.name, ft := .ref, ref := .named m, items := some items }
     | some { body := .select ms, .. } => { name := td.name, ft := .ref, ref := .named m, members := some (ms.map refOf) }
     | _ => { name := td.name, ft := .ref, ref := .named m }
+
+def typeOf (s : Schema) (td : TypeDecl) : DType := typeOfM descCreation s td
 
 /-! ## Entities: emission order, descriptor construction -/
 
